@@ -16,6 +16,7 @@ mod sched;
 mod selftest;
 mod simdd;
 mod simf;
+mod simp;
 mod simlog;
 mod simrng;
 mod store;
@@ -145,6 +146,10 @@ fn main() {
             let mx = times.iter().map(|t| t.0).fold(0.0, f64::max);
             let avm = times.iter().map(|t| t.1).sum::<f64>() / times.len() as f64;
             say!("E={} depth<={} n={} build avg {:.4}s max {:.4}s; model avg {:.4}s", e, depth, times.len(), avg, mx, avm);
+        }
+        "envcanary" => {
+            quiet_panics();
+            say!("{:016x}", prop_sc::env_canary_digest());
         }
         "replay" => {
             quiet_panics();
